@@ -125,6 +125,8 @@ type svcEnv struct {
 	comps   map[string]*svcComp
 	shared  *sharedcomponent.Map[*compCfg, *svcComp]
 	watcher *watcherExt
+	// sharedCfg is the config object of the shared receiver (the key of the sharedcomponent.Map)
+	sharedCfg *compCfg
 }
 
 type svcEvent struct {
@@ -333,7 +335,7 @@ func (e *svcEnv) settings() service.Settings {
 		set.ExportersConfigs[component.NewIDWithName(typE, sg)] = &compCfg{Name: "e/" + sg, env: e}
 	}
 	if e.s.Shared {
-		set.ReceiversConfigs[component.NewID(typS)] = &compCfg{Name: "s", env: e}
+		set.ReceiversConfigs[component.NewID(typS)] = e.sharedCfg
 	}
 	if e.s.SecondExt {
 		set.ExtensionsConfigs[component.NewID(typX)] = &compCfg{Name: "x", env: e}
@@ -407,13 +409,26 @@ func expectedKey(name string) string {
 var cSvc = vt.New("C11", "service-watcher")
 
 func runSvc(s SvcScript) (nontrivial bool, key string, f *vt.Finding) {
+	return runSvcWith(s, sharedcomponent.NewMap[*compCfg, *svcComp](), &compCfg{Name: "s"}, klass{cSvc}, nil)
+}
+
+// svcOutcome: what the shared receiver's instances delivered (filled when the oracle held).
+type svcOutcome struct {
+	SharedBefore map[string]string // instance key -> delivered statuses before Shutdown
+	SharedAll    map[string]string
+	StartFailed  bool
+}
+
+// runSvcWith builds, starts, exercises and shuts down one service.  shared and
+// sharedCfg are the factory-level sharedcomponent.Map and the config object it
+// is keyed by: a later generation (reload) passes the same ones.
+func runSvcWith(s SvcScript, shared *sharedcomponent.Map[*compCfg, *svcComp], sharedCfg *compCfg, c klass, out *svcOutcome) (nontrivial bool, key string, f *vt.Finding) {
 	kb, _ := json.Marshal(s)
 	key = string(kb)
 	if !s.valid() {
 		return false, key, nil
 	}
-	c := cSvc
-	e := &svcEnv{s: s, comps: map[string]*svcComp{}, shared: sharedcomponent.NewMap[*compCfg, *svcComp]()}
+	e := &svcEnv{s: s, comps: map[string]*svcComp{}, shared: shared, sharedCfg: sharedCfg}
 	ctx := context.Background()
 	srv, err := service.New(ctx, e.settings(), e.config())
 	if err != nil {
@@ -581,7 +596,7 @@ func runSvc(s SvcScript) (nontrivial bool, key string, f *vt.Finding) {
 	if s.Shared {
 		comp := e.comps["s"]
 		if comp == nil {
-			return true, key, vt.Failf("svc/harness", "shared component was never created")
+			return true, key, vt.Failf("svc/shared-component-not-created", "the shared receiver's factory never created a component for this service")
 		}
 		if comp.startCalls > 1 || comp.shutdownCall > 1 {
 			return true, key, vt.Failf("svc/shared-started-twice", "shared component started %d times, shut down %d times", comp.startCalls, comp.shutdownCall)
@@ -600,6 +615,17 @@ func runSvc(s SvcScript) (nontrivial bool, key string, f *vt.Finding) {
 					return true, key, vt.Failf("svc/shared-instances-differ", "shared receiver: before shutdown instance %s delivered [%s] but instance %s delivered [%s]",
 						ks[0], statusSeqString(perBeforeShutdown[ks[0]]), k, statusSeqString(perBeforeShutdown[k]))
 				}
+			}
+			// ... and that sequence reflects exactly what was reported for this service's instances:
+			// Starting, the component's reports from Start, the automatic OK, its runtime reports
+			want := append([]int{lStarting}, b.StartReports...)
+			want = append(want, lOKIfStarting)
+			for _, ls := range comp.rtIssued {
+				want = append(want, ls...)
+			}
+			if ok, exhausted := linearizable(lNone, [][]int{want}, perBeforeShutdown[ks[0]]); !exhausted && !ok {
+				return true, key, vt.Failf("svc/shared-not-the-automaton-run", "shared receiver instance %s: watcher saw [%s] before shutdown; reports made for it: [%s]",
+					ks[0], statusSeqString(perBeforeShutdown[ks[0]]), lettersString(want))
 			}
 			if len(perBeforeShutdown[ks[0]]) == 0 {
 				return true, key, vt.Failf("svc/shared-no-status", "shared receiver was started but no status was delivered for %s", ks[0])
@@ -630,7 +656,19 @@ func runSvc(s SvcScript) (nontrivial bool, key string, f *vt.Finding) {
 		classes = append(classes, "runtime-reports")
 	}
 	c.Class(classes...)
-	c.ClassN("events-delivered", int64(len(events)))
+	if c.c != nil {
+		c.c.ClassN("events-delivered", int64(len(events)))
+	}
+	if out != nil {
+		out.SharedBefore, out.SharedAll, out.StartFailed = map[string]string{}, map[string]string{}, startErr != nil
+		if s.Shared {
+			for _, sg := range s.Signals {
+				k := instanceKey(component.KindReceiver, component.NewID(typS), []string{sg})
+				out.SharedBefore[k] = statusSeqString(perBeforeShutdown[k])
+				out.SharedAll[k] = statusSeqString(per[k])
+			}
+		}
+	}
 	return rejAfterAcc, key, nil
 }
 
